@@ -10,7 +10,8 @@ RULE = ('case = parametrised input family F(n): (nest) a wrapper recipe - 1..4 w
         'value, dict with tuple key, frozenset, SimpleNamespace arg, pretty_call arg, list subclass, OrderedDict, comment, '
         'trailing comment} applied cyclically n times to a leaf (int, word string, empty string, long string); (wide) n '
         'siblings of a small nested shape in a list / dict / tuple / set; (str) strings of n words / n unbreakable chars / '
-        'n escapes, str and bytes, at a fixed width, top level and nested. Fixed families from the statement are enumerated; '
+        'n escapes, str and bytes, at a fixed width, top level and nested. Fixed families from the statement and every ordered pair/triple (up to rotation) over {list, dict value, tuple, '
+        'call, comment, trailing comment} are enumerated; '
         'recipes are drawn by Hypothesis. Oracle: steps(x) = sys.monitoring LINE events inside the package during one '
         'pformat; for n = n0, 2n0, 4n0, 8n0 (n0 = 8 nesting / 50 length) require steps(2n) / steps(n) <= 12; every run is '
         'capped at 12*steps(previous) + 10^4 events, the first at 5*10^7 (termination is decided by the same cap, never by '
@@ -124,6 +125,18 @@ def enumerate_cases(tier):
                ['comment', 'box'], ['list', 'dictval', 'tuple', 'ns']):
         for leaf in (LEAVES[0], LEAVES[2], LEAVES[3]):
             yield {'kind': 'nest', 'wrappers': ws, 'leaf': leaf, 'width': w}
+    # every ordered pair and triple over a reduced wrapper set (comments next to every container / call kind)
+    import itertools
+    core_ws = ['list', 'dictval', 'tuple', 'box', 'comment', 'tcomment']
+    seen = set()
+    for k in (2, 3):
+        for ws in itertools.product(core_ws, repeat=k):
+            # rotations of a cyclic recipe are the same family up to the outermost levels
+            rot = min(tuple(ws[i:] + ws[:i]) for i in range(k))
+            if rot in seen or len(set(ws)) == 1:
+                continue
+            seen.add(rot)
+            yield {'kind': 'nest', 'wrappers': list(ws), 'leaf': ['int', 1], 'width': w}
     for c in ('list', 'tuple', 'dict', 'commented-list', 'set', 'counter'):
         for shape in ([], ['list'], ['dictval', 'tuple']):
             yield {'kind': 'wide', 'container': c, 'shape': shape, 'leaf': 'int', 'width': w}
